@@ -1151,6 +1151,62 @@ class Expander:
                 fdef.body = [t.visit(s) for s in fdef.body]
 
 
+
+    # ------------------------------------------------------------------ module-level helper calls
+    def inline_module_level_calls(self):
+        """`helper(A, B)` as a statement at module level, helper a module-level function of the same module that is not in the
+        reference inventory, takes plain positional parameters and has a body without return / yield / nested scopes: the
+        statement is replaced by the body with the arguments written for the parameters (registration helpers such as
+        `_register_all(Cls.add_representer, TABLE)`)."""
+        if self.base_funcs is None:
+            return
+        for mname, m in self.modules.items():
+            helpers = {}
+            for st in m.tree.body:
+                if isinstance(st, ast.FunctionDef) and '%s.%s' % (mname, st.name) not in self.base_funcs \
+                        and not st.decorator_list and not st.args.vararg and not st.args.kwarg and not st.args.kwonlyargs \
+                        and not st.args.defaults \
+                        and not any(isinstance(x, (ast.Return, ast.Yield, ast.YieldFrom, ast.Global, ast.Nonlocal, ast.FunctionDef,
+                                                   ast.Lambda, ast.ClassDef)) for b in st.body for x in ast.walk(b)):
+                    params = [a.arg for a in st.args.args]
+                    stored = {x.id for b in st.body for x in ast.walk(b) if isinstance(x, ast.Name) and isinstance(x.ctx, ast.Store)}
+                    if not (stored & set(params)):
+                        helpers[st.name] = (st, params)
+            if not helpers:
+                continue
+
+            def rewrite(body):
+                out = []
+                for st in body:
+                    if isinstance(st, ast.Expr) and isinstance(st.value, ast.Call) and isinstance(st.value.func, ast.Name) \
+                            and st.value.func.id in helpers and not st.value.keywords \
+                            and len(st.value.args) == len(helpers[st.value.func.id][1]) \
+                            and all(isinstance(a, (ast.Name, ast.Constant)) or (isinstance(a, ast.Attribute) and self._pure_chain(a))
+                                    for a in st.value.args):
+                        fdef, params = helpers[st.value.func.id]
+                        binding = dict(zip(params, st.value.args))
+
+                        class T(ast.NodeTransformer):
+                            def visit_Name(self, node):
+                                if isinstance(node.ctx, ast.Load) and node.id in binding:
+                                    return ast.copy_location(copy.deepcopy(binding[node.id]), node)
+                                return node
+                        for b in fdef.body:
+                            if isinstance(b, ast.Expr) and isinstance(b.value, ast.Constant):
+                                continue
+                            nb = T().visit(copy.deepcopy(b))
+                            for x in ast.walk(nb):
+                                if hasattr(x, 'lineno'):
+                                    x.lineno = st.lineno
+                                    x.end_lineno = getattr(st, 'end_lineno', st.lineno)
+                            out.append(nb)
+                        self.stats['inlined_calls'] += 1
+                        self.stats['inlined_helpers'].add('%s.%s' % (mname, fdef.name))
+                        continue
+                    out.append(st)
+                return out
+            m.tree.body = rewrite(m.tree.body)
+
     # ------------------------------------------------------------------ character-set constants
     def substitute_charsets(self):
         """`_WORD = frozenset('abc...')` (module or class level, bound once; also set displays, set(...), unions with `|` of
@@ -2292,6 +2348,7 @@ class Expander:
     def run(self):
         self.collect()
         self.rewrite_with_managers()
+        self.inline_module_level_calls()
         self.substitute_constants()
         self.substitute_charsets()
         self.expand_dispatch()
